@@ -45,6 +45,8 @@ def gen_formula(rng):
     if rng.random() < 0.3:  # categorical-only lattices incl. three-way interactions without their margins
         facs = rng.sample(["A", "B", "S", "G", "C(A)", "C(G, contr.sum)"], rng.randint(2, 4))
         facs = [f for i, f in enumerate(facs) if f.strip("C()").split(",")[0] not in {g.strip("C()").split(",")[0] for g in facs[:i]}]
+    elif rng.random() < 0.2:  # one backtick-only column under several (stateful) encodings in the same build
+        facs = rng.sample(["center(`b m`)", "scale(`b m`)", "poly(`b m`, 2)", "I(`b m` * 2)", "bs(`b m`, df=4)"], rng.randint(2, 3)) + rng.sample(CATF, rng.randint(0, 1))
     else:
         facs = rng.sample(NUMF, rng.randint(1, 3)) + rng.sample(CATF, rng.randint(0, 3))
     terms = []
@@ -113,7 +115,8 @@ def result_digest(res, drop):
     for p in parts:
         M = np.ascontiguousarray(dense(p), dtype=np.float64)
         idx = [repr(i) for i in p.index] if hasattr(p, "index") and not callable(p.index) else None
-        ds.append(digest(tuple(colnames(p)), M, idx, sorted(int(i) for i in drop)))
+        state_keys = sorted(map(str, p.model_spec.transform_state)) + sorted(map(str, p.model_spec.encoder_state))
+        ds.append(digest(tuple(colnames(p)), M, idx, sorted(int(i) for i in drop), state_keys))
     return "+".join(ds)
 
 
